@@ -397,8 +397,12 @@ def rule_dyn(repo):
 def rules(repo, tier):
     from ..stale import rule_stale
     from ..effects import rule_pure
+    from ..fresh import rule_fresh
     return [rule_pure(repo, 'C14.PURE', 'LQR / MPC do not write in place into x_init, the nominal input trajectory or the cost tensors they are given',
                       [(LQR, 'LQR.forward'), (LQR, 'LQR.lqr_backward'), (LQR, 'LQR.lqr_forward'), ('pypose.module.mpc', 'MPC.forward'),
                        ('pypose.module.dynamics', 'runsys'), ('pypose.module.dynamics', 'toBTN')]),
+            rule_fresh(repo, 'C14.FRESH', 'the roll-out buffers and the cost accumulator of a solve are allocated by that solve: nothing written in place '
+                       'in lqr_forward / lqr_backward / MPC.forward is loaded from the controller object', 
+                       [(LQR, 'LQR.lqr_forward'), (LQR, 'LQR.lqr_backward'), ('pypose.module.mpc', 'MPC.forward'), ('pypose.module.dynamics', 'runsys')]),
             rule_clk(repo, tier), rule_feas_cost(repo, tier), rule_gain(repo, tier), rule_best(repo, tier), rule_dyn(repo),
             rule_stale(repo, 'C14.STALE', [(LQR, 'LQR.lqr_backward'), (LQR, 'LQR.lqr_forward'), ('pypose.module.mpc', 'MPC.forward'), ('pypose.module.dynamics', 'runsys')])]
